@@ -27,6 +27,23 @@ pub fn exec(op: &str, a: &[Vec<u8>]) -> Out {
             }
             Out::Rej
         }
+        // [index 0..9] -> X, Y, Z, T (canonical bytes) of the public point constants as shipped: EIGHT_TORSION[0..8],
+        // 8 = ED25519_BASEPOINT_POINT, 9 = RISTRETTO_BASEPOINT_POINT's representative. compress() and == never read
+        // T, so a wrong T (seeded change C05f) only shows when the constant itself enters an addition.
+        "k.point_const" => {
+            use curve25519_dalek::constants as c;
+            let i = idx(0);
+            let p = match i {
+                0..=7 => c::EIGHT_TORSION[i],
+                8 => c::ED25519_BASEPOINT_POINT,
+                _ => h::ristretto_inner(&c::RISTRETTO_BASEPOINT_POINT),
+            };
+            let mut o = vec![];
+            for f in h::edwards_coords(&p).iter() {
+                o.extend_from_slice(&f.as_bytes());
+            }
+            Out::Ok(o)
+        }
         // -> for L, R, RR: SCALAR_LIMBS x 8 bytes each; then LFACTOR (8), limb bits (1), nlimbs (1)
         "k.scalar" => {
             let (cs, lf) = h::scalar_constants();
